@@ -171,12 +171,9 @@ def _settings_cls():
     return settings.Settings
 
 
-def _obj(cs, name):
-    """the live Setting object (Settings.__getitem__ refuses some names while `cycles` is set; items() does not)"""
-    return dict(cs.items())[name]
-
-
 def _value(cs, name, objs=None):
+    """the stored value as plain data, taken from the live Setting object (Settings.__getitem__ refuses some names while
+    `cycles` is set; items() does not)"""
     v = gs.plain((objs or dict(cs.items()))[name].value)
     if name == "versions" and isinstance(v, dict):
         v = {k: x for k, x in v.items() if k != "armi"}  # the writer's stamp is not a user value
@@ -308,11 +305,7 @@ def _dump_entries(pairs):
 
 def _keep_only(txt, names):
     d = _load_text(txt)
-    return _dump_entries([(k, _unplain(v)) for k, v in d.items() if k in names])
-
-
-def _unplain(v):
-    return v
+    return _dump_entries([(k, v) for k, v in d.items() if k in names])
 
 
 # ============================================================================================================
@@ -765,6 +758,9 @@ class Adapter:
         out = []
         for o, cs in w.cs.items():
             for name, st in cs.items():
+                dflt = set(_mutable_ids(st, st.default)) - {id(st)}
+                if dflt and dflt & set(_mutable_ids(st)):
+                    out.append("%s(%d,default)" % (name, o))
                 for ident in _mutable_ids(st):
                     prev = seen.get(ident)
                     if prev is not None and prev[0] != o:
@@ -774,9 +770,12 @@ class Adapter:
         return sorted(set(out))
 
 
-def _mutable_ids(st):
+_VALUE = object()
+
+
+def _mutable_ids(st, start=_VALUE):
     yield id(st)
-    stack = [st.value]
+    stack = [st.value if start is _VALUE else start]
     while stack:
         v = stack.pop()
         if isinstance(v, dict):
@@ -819,6 +818,21 @@ def run_path(ad, g, steps, check_from=0):
         if d:
             return _div(i, d, steps, e, g, {"err": w.err, "exc": w.exc, "text": (w.text or "")[:1500]})
     return None
+
+
+def run_checked(ad, g, steps):
+    """compare after the last step only; on a divergence (or when the harness cannot go on because an earlier step left
+    the world in an unexpected state) run again comparing after every step, so that the first diverging step is named"""
+    try:
+        d = run_path(ad, g, steps, check_from=len(steps) - 1)
+    except tlc.MachineryError:
+        d = run_path(ad, g, steps, check_from=0)
+        if d is None:
+            raise
+        return d
+    if d:
+        d = run_path(ad, g, steps, check_from=0) or d
+    return d
 
 
 def _div(i, d, steps, e, g, observed):
@@ -891,9 +905,7 @@ def replay_edges(rep, ad, lib, graph, label, rng, size, max_edges=None, rounds=1
                 continue
             g = Gamma(lib, rng, k=rng.randrange(1000), size=size, with_r=with_r, exclude=exclude)
             steps = [rp.strip(x) for x in pre] + [rp.strip(e)]
-            d = run_path(ad, g, steps, check_from=len(pre))
-            if d:      # a divergence is attributed to the step where it first shows: run again comparing after every step
-                d = run_path(ad, g, steps, check_from=0) or d
+            d = run_checked(ad, g, steps)
             n += 1
             nt += e["_fk"] != e["_tk"]
             if d:
@@ -963,15 +975,14 @@ def run_sweep(rep, ad, lib, graph, rng, thorough, quarantine):
     for m in lib.order:
         if m == "versions" or not lib.vals[m] or not lib.bad[m]:
             continue
-        nb = len(lib.bad[m]) if thorough else min(len(lib.bad[m]), 1 if _SELFTEST else 2)
+        nb = min(len(lib.bad[m]), 12) if thorough else min(len(lib.bad[m]), 1 if _SELFTEST else 2)
         for k in range(nb):
-            kk = k if thorough else rng.randrange(len(lib.bad[m]))
+            kk = rng.randrange(len(lib.bad[m]))
             g = Gamma(lib, rng, k=kk, only={m}, with_r=False, api=("file", "stream")[k % 2])
             path = pp if g.members["P"] else pq
-            d = run_path(ad, g, path, check_from=len(path) - 1)
+            d = run_checked(ad, g, path)
             nbad += 1
             if d:
-                d = run_path(ad, g, path, check_from=0) or d
                 at = path[d["step"]]
                 rep.violation(key_of(d, at, "sweep") + (":" + m if ":" + m not in key_of(d, at, "sweep") else ""),
                               "setting %s, refused value %r in a file: %s" % (m, g.raw(m, "x"), d["first_difference"]),
@@ -1227,7 +1238,6 @@ def _random_action(rng, st, hand_files, g):
 # ============================================================================================================
 # part 7: run / replay / selftest
 # ============================================================================================================
-SCHEMA_ACTIONS = ()
 CASE_ACTIONS = ("New", "DoAssign", "DoAssignBad", "DoAssignUnknown", "DoGetSet", "DoRevert", "DoWrite", "DoSetBad", "DoSetOld",
                 "AddUnknown", "DoHandWrite", "DoRead", "DoModified", "DoModifiedBad", "DoDuplicate")
 _SELFTEST = False
@@ -1293,22 +1303,35 @@ def run(rep, tier, seed):
     if len(gio.edges) < 500 or len(gcopy.edges) < 500:
         raise tlc.MachineryError("emission produced too few edges (%d, %d)" % (len(gio.edges), len(gcopy.edges)))
     sizes = (4, 8) if not thorough else (6, 14)
-    n1 = replay_edges(rep, ad, lib, gio, "io-edges", rng, sizes[0], max_edges=None if thorough else (200 if _SELFTEST else 400), exclude=quarantine)
-    n2 = replay_edges(rep, ad, lib, gcopy, "copy-edges", rng, sizes[1], max_edges=6000 if thorough else (300 if _SELFTEST else 700), exclude=quarantine)
+    import time as _t
+
+    t0 = _t.time()
+    stages = rep.extra.setdefault("stage_wall_s", {})
+    n1 = replay_edges(rep, ad, lib, gio, "io-edges", rng, sizes[0], max_edges=3500 if thorough else (200 if _SELFTEST else 400), exclude=quarantine)
+    stages["io-edges"] = round(_t.time() - t0, 1)
+    t0 = _t.time()
+    n2 = replay_edges(rep, ad, lib, gcopy, "copy-edges", rng, sizes[1], max_edges=4000 if thorough else (300 if _SELFTEST else 700), exclude=quarantine)
+    stages["copy-edges"] = round(_t.time() - t0, 1)
+    t0 = _t.time()
     if f_all is not None:
         ares, gall = f_all.result()
         rep.add_tlc("edges:SettingsCase_emit_all_thorough.cfg", ares)
-        replay_edges(rep, ad, lib, gall, "all-edges(sampled)", rng, 6, max_edges=4000, exclude=quarantine)
+        replay_edges(rep, ad, lib, gall, "all-edges(sampled)", rng, 6, max_edges=3000, exclude=quarantine)
+        stages["all-edges"] = round(_t.time() - t0, 1)
+        t0 = _t.time()
     if not n1 or not n2:
         raise tlc.MachineryError("no edges replayed")
     e = gio.edges[len(gio.edges) // 2]
     rep.sample({"kind": "edge", "path": [s["act"] for s in gio.path[e["_fk"]]], "act": e["act"], "expected": rp.strip(e)["to"]})
     run_sweep(rep, ad, lib, gio, rng, thorough and not _SELFTEST, quarantine)
+    stages["sweep"] = round(_t.time() - t0, 1)
+    t0 = _t.time()
 
     # 4. code -> spec: random histories
-    ntr, nev = (400, 40) if thorough else ((30, 18) if _SELFTEST else (50, 20))
+    ntr, nev = (300, 36) if thorough else ((30, 18) if _SELFTEST else (50, 20))
     traces = trace_driver(ad, lib, _hand_files(gio), ntr, nev, seed, quarantine)
     bad, stats = tracecheck.validate("SettingsCase_trace", "SettingsCase_trace.cfg", MODDIR, traces, timeout=3000)
+    stages["traces"] = round(_t.time() - t0, 1)
     rep.add_tlc("trace-validation", stats["tlc"])
     rep.add_traces("random-settings-histories", len(traces), sum(len(t["ev"]) for t in traces),
                    "seeded random histories (assign, refuse, write in three styles through both APIs, edit, hand-write, read, copy four "
@@ -1418,6 +1441,31 @@ class _NullRep:
 
     def violation(self, *a, **k):
         pass
+
+
+import contextlib
+
+
+@contextlib.contextmanager
+def _patch_cycles_schema(gset, fn):
+    """the `cycles` schema closes over globalSettings._isMonotonicIncreasing when the settings are defined: swap the
+    function object inside the voluptuous All of every newly defined `cycles` setting"""
+    orig = gset.defineSettings
+
+    def define():
+        out = orig()
+        for s in out:
+            if getattr(s, "name", "") == "cycles":
+                inner = s._customSchema.schema[0].validators[0]          # the dict of the All(dict, mutuallyExclusive)
+                allv = inner["cumulative days"]
+                allv.validators = (allv.validators[0], fn)          # All looks its validators up at call time
+        return out
+
+    gset.defineSettings = define
+    try:
+        yield
+    finally:
+        gset.defineSettings = orig
 
 
 def selftest():
@@ -1565,6 +1613,18 @@ def selftest():
     def isdefault_identity(self):
         return self.value is self.default
 
+    from armi.settings.fwSettings import globalSettings as gset
+
+    def monotonic_not_strict(inputList):
+        if all(x <= y for x, y in zip(inputList, inputList[1:])):
+            return inputList
+        raise vol.error.Invalid("not monotonic")
+
+    monotonic_not_strict.__name__ = monotonic_not_strict.__qualname__ = "_isMonotonicIncreasing"
+
+    def xs_validate_never_raises(self):
+        return None
+
     P = patched
     mutants = [
         ("Setting.setValue stores before it validates", lambda: P(S, "setValue", setvalue_store_first)),
@@ -1585,6 +1645,8 @@ def selftest():
         ("Setting._setSchema ignores enforcedOptions", lambda: P(S, "_setSchema", setschema_ignores_enforced)),
         ("Setting._setSchema: no element type for list defaults", lambda: P(S, "_setSchema", setschema_no_element_type)),
         ("Setting.isDefault by identity", lambda: P(S, "isDefault", isdefault_identity)),
+        ("cycles: cumulative days need not increase strictly", lambda: _patch_cycles_schema(gset, monotonic_not_strict)),
+        ("XSModelingOptions.validate never refuses", lambda: P(xss.XSModelingOptions, "validate", xs_validate_never_raises)),
         ("SettingRenamer ignores expiry dates", lambda: P(settingsIO.SettingRenamer, "__init__", renamer_ignores_expiry)),
         ("Setting.revertToDefault aliases the default", lambda: P(S, "revertToDefault", revert_aliases_default)),
     ]
